@@ -30,6 +30,16 @@ CHECKS = {
    text="paging_history: in any history of requests (interleaved with other assumption sets) the requests for one key are answered by consecutive pages of the fixed list of models containing A, min(k, remaining) each, restarting at 0 after the last model; page_source_is_model_set: that list is duplicate free, consists of complete configurations that are models containing A and has count(A) elements; none_iff_unsat; key_independent_of_order. Tie: every page of every history (all amount sequences over {1,2,3,5,count,count+1} to two cycles for small counts) is compared literally (same configurations, same order) with the Lean cursor machine on the exported array, and judged by the truth-table oracle; library and stream interfaces.",
    note="Side conditions EnumOK (children before parents, no True child under an or-node, root not True) are decided by the driver per exported array (q enumok). Modelled, not verified: usize conversions of BigInt (to_usize panics for > 2^64 models per page are outside the model), Mutex/Arc of the cursor (C17), itertools::multi_cartesian_product order (modelled by prodConfigs and tied by exact page comparison). FFI DdnnfMut::enumerate is a thin wrapper (read, not run).",
    ref="DESIGN.md §8 C06"),
+ "C16": dict(
+   technique="Lean 4 theorems on the request state machine of a loaded model (only state: per-model enumeration cursor) + correspondence: long-lived instance vs fresh instance vs clone, request by request, and the model's answers along the same history",
+   text="answer_independent_of_history: in the model every non-paging request is answered from (node array, request) alone after any history; nonpaging_requests_keep_cursor; paging_state_belongs_to_one_model / _one_assumption_set for a process holding several models. The abstraction 'no scratch state survives a request' is what the tie checks: random histories over 15 request kinds and all ordered pairs of kinds on a long-lived instance are compared request-by-request with a fresh instance and with a clone taken just before, enumeration inside the history is judged per assumption set, count/sat/core/enum answers along the history are diffed with the Lean session machine; two models enumerated alternately in one process. The check found the process-global cursor (fixed fecd733).",
+   note="Modelled, not verified: the scratch fields temp/marker/partial_derivative/md of Node are not part of the model state (every operation of the model recomputes what it reads); their harmlessness is established by the correspondence, not by a theorem. t-wise answers are only checked for validity (C09).",
+   ref="DESIGN.md §8 C16"),
+ "C20": dict(
+   technique="Lean 4 theorems: best configuration = argmax over the models containing A (unconditional), top-k incl. n-ary frontier search and k-way merge = k largest values (unconditional) + correspondence with exact configurations for tie-free objectives",
+   text="best_is_optimal_model, best_none_iff_unsat, topk_is_a_top_k_selection, topk_values_are_the_k_largest hold for every node array, objective vector, assumption list and k>0 (no well-formedness needed); candidates_are_models_containing_A links the ranged-over list to the models containing A for well-formed arrays. Tie: best/top-k of the real ExtendedDdnnf (hook accessor) vs the Lean model (exact configurations for tie-free vectors, value sequences for tied ones) and vs brute-force ranking of the truth table, k in {1,2,3,count,count+1,random}.",
+   note="Objective values are integers in the model; the harness uses integer-valued f64 with |v| <= 2^20 so f64 sums are exact; f64 rounding for non-integer objectives is not modelled. Ties: BinaryHeap pop order among equal values is unspecified; theorems and comparison are by value.",
+   ref="DESIGN.md §8 C20"),
  "C01": dict(
    technique="Lean 4 theorem (count = number of satisfying assignments for every well-formed node array) + per-input validated loader correspondence",
    text="Theorems count_is_model_count / same_function_same_count hold for every well-formed node array of any size (induction over the array, kernel-checked). The loader is tied per input: the Lean driver evaluates the decidable WF predicate and the truth table on the node array the real loader exported and compares with the truth table of the input text; the real code is compared with an independent oracle.",
